@@ -267,6 +267,27 @@ func parsigdbProbe(pc *probe, k signedKind, ver eth2spec.DataVersion) {
 		}
 	}
 	pc.phases++
+	// shares that arrive after the threshold was reached are stored too (they are what a duplicate or
+	// an equivocation of that share is later compared with): hand them in, scribble the caller's
+	// copies, then hand in identical originals again - they must be recognised as duplicates
+	// (seeded change C18-r8: entries beyond the threshold were kept without cloning)
+	for i := threshold; i < g; i++ {
+		in, _ := pc.fresh(sets[i]).(core.ParSignedDataSet)
+		if err := pc.call("StoreExternal", func() error { return db.StoreExternal(ctx, duty, in) }); err != nil {
+			pc.anomaly("store-rejected", fmt.Sprintf("storing share %d after the threshold was reached failed: %v", i+1, err))
+			continue
+		}
+		inputs[fmt.Sprintf("caller's input (share %d)", i+1)] = pc.reach(in)
+		pc.scribble(in)
+	}
+	for i := threshold; i < g; i++ {
+		in, _ := pc.fresh(sets[i]).(core.ParSignedDataSet)
+		if err := pc.call("re-store", func() error { return db.StoreExternal(ctx, duty, in) }); err != nil {
+			pc.anomaly("restore-rejected", fmt.Sprintf("storing identical share %d (stored after the threshold) again after the caller scribbled its copy failed: %v", i+1, err))
+		}
+	}
+	pc.r.Count("parsigdb_shares_stored_beyond_threshold", int64(g-threshold))
+	pc.phases++
 
 	// ---- hand-overs that fail: subscriber errors, expired duty, dead context
 	if pc.aliasingEstablished() {
